@@ -608,3 +608,102 @@ join_driver(P + "semi_join[one same-named key]", "semi")
 join_driver(P + "anti_join[one same-named key]", "anti")
 join_driver(P + "semi_join[key named differently]", "semi", renamed=True)
 join_driver(P + "full_join[bounded only]", "full")
+
+
+# ---- C03: sort ---------------------------------------------------------------------------------------
+SORT_POOLS = {"int": [0, 1], "float": [0.5, NAN, -0.5], "str": ["", "a", "b" * 50, "\U0001F600"], "bool": [True, False],
+              "date": POOLS["date"] + [np.datetime64("2021-05-05")], "obj": [None, 1, 2], "fix": ["", "a", "b"]}
+
+
+def sort_frames(maxrow):
+    for k1 in SORT_POOLS:
+        for k2 in ("int", "float", "str"):
+            for n in range(maxrow + 1):
+                for c1 in itertools.product(SORT_POOLS[k1], repeat=n):
+                    for c2 in itertools.product(SORT_POOLS[k2][:2], repeat=n):
+                        yield [("a", k1, enc(list(c1))), ("b", k2, enc(list(c2)))]
+
+
+def build_sort(spec):
+    cols = {}
+    for name, kind, values in spec:
+        if kind == "fix":
+            cols[name] = DataFrameColumn(np.array(dec(values), dtype="<U1")) if values else DataFrameColumn(np.array([], dtype="<U1"))
+        else:
+            cols[name] = mkcol(kind, dec(values))
+    cols["i"] = Vector(list(range(len(spec[0][2]))), int)
+    return DataFrame(**cols)
+
+
+def sort_ok(d, got, keydirs):
+    """got is a stable key-ordered permutation of the rows of d (missing grouped at one end, last when ascending)"""
+    if not isinstance(got, DataFrame) or got.colnames != d.colnames or got.nrow != d.nrow:
+        return False
+    perm = list(got.i)
+    if sorted(perm) != list(range(d.nrow)):
+        return False
+    for c in d.colnames:
+        if not all(cell_eq(got[c][t], d[c][perm[t]]) or got[c][t] == d[c][perm[t]] for t in range(d.nrow)):
+            return False
+        if np.shares_memory(got[c], d[c]):
+            return False
+    def cmp_key(k, dr, x, y):          # -1 before, 0 tie, 1 after; None = missing-vs-value (side decided per key)
+        mx, my = is_missing(x), is_missing(y)
+        if mx and my:
+            return 0
+        if mx or my:
+            return None
+        if x == y:
+            return 0
+        return -1 if ((x < y) == (dr > 0)) else 1
+    for k, dr in keydirs:                     # missing side must be consistent per key and "last" when ascending
+        pass
+    sides = {}
+    for t in range(d.nrow - 1):
+        x_, y_ = perm[t], perm[t + 1]
+        decided = False
+        for k, dr in keydirs:
+            c = cmp_key(k, dr, d[k][x_], d[k][y_])
+            if c is None:
+                side = "last" if is_missing(d[k][y_]) else "first"
+                if dr > 0 and side != "last":
+                    return False
+                if sides.setdefault(k, side) != side:
+                    return False
+                decided = True
+                break
+            if c < 0:
+                decided = True
+                break
+            if c > 0:
+                return False
+        if not decided and not x_ < y_:
+            return False                      # full tie: original order kept
+    return True
+
+
+def sort_driver(name, keydirs):
+    @driver(P + name)
+    def _d(run):
+        mr = 3 if run.tier == "thorough" else 2
+        run.bound = f"frames with key column a over 7 dtypes (int, float+NaN, str incl. 50-char and astral, bool, date+NaT, object+None, fixed-width <U1) and key b, <= {mr} rows"
+        for (spec,) in run.inputs(((s,) for s in sort_frames(mr))):
+            spec = [tuple(x) for x in spec]
+            d = build_sort(spec)
+            before_ = snapshot(d)
+            try:
+                got = d.sort(**dict(keydirs))
+                ok = sort_ok(d, got, keydirs) and snapshot(d) == before_
+                obs = {c: list(got[c]) for c in got.colnames}
+            except Exception as e:
+                ok, obs = False, f"raised {type(e).__name__}: {e}"
+            run.check([spec], ok, expected="stable key-ordered permutation, receiver unchanged", got=obs, clause="sort")
+    return _d
+
+
+sort_driver("sort[one key ascending]", [("a", 1)])
+sort_driver("sort[one key descending]", [("a", -1)])
+sort_driver("sort[two keys asc,asc]", [("a", 1), ("b", 1)])
+sort_driver("sort[two keys asc,desc]", [("a", 1), ("b", -1)])
+sort_driver("sort[two keys desc,asc]", [("a", -1), ("b", 1)])
+sort_driver("sort[two keys desc,desc]", [("a", -1), ("b", -1)])
